@@ -55,11 +55,21 @@ def cases(tier, seed):
             if sim == "thermal" and mesh == "mixed3d" and tier == "quick":
                 continue
             out.append({"kind": "renumber", "sim": sim, "mesh": mesh, "perms": perms})
+    # special sizes and shapes of the assembly: (i) Ndof^2 >= 2^31 (the flattened (row, col) key no longer fits 32 bits),
+    # (ii) meshes on which NO matrix slot receives two contributions (a single element, elements sharing no node) with every /
+    # scrambled node numbering, (iii) a caller that edits the returned matrices in place between two reads
+    out.append({"kind": "large", "n": 160 if tier == "quick" else 200, "dof_n": 2})
+    for et, nel in (("TRI3", 1), ("QUAD4", 1), ("TRI3", 2), ("QUAD4", 2), ("TETRA4", 1)):
+        for dof_n in (1, 2):
+            out.append({"kind": "isolated", "elemType": et, "nel": nel, "dof_n": dof_n})
+    for sim in ("elastic", "thermal"):
+        out.append({"kind": "scribble", "sim": sim, "mesh": "mixed2d"})
     # direct assembly of user forms (FEM/_forms.py): Assemble == scatter-add of Integrate_e, non-symmetric forms included
     for et in ("TRI3", "QUAD4", "TRI6", "TETRA4"):
         for dof_n in (1, 2):
             for form in ("mass", "nonsym", "linear"):
-                out.append({"kind": "form", "elemType": et, "dof_n": dof_n, "form": form})
+                for scale in (1.0, 1e-14, 1e12):  # magnitudes of other unit systems: nothing may be dropped or clipped
+                    out.append({"kind": "form", "elemType": et, "dof_n": dof_n, "form": form, "scale": scale})
     return out
 
 
@@ -445,9 +455,11 @@ def _run_form(case):
     field = Field(g, dof_n)
     key = dict(elemType=et, dof_n=dof_n, form=form)
     Ndof = g.Ncoords * dof_n
+    sc = float(case.get("scale", 1.0))
+    key["scale"] = f"{sc:g}"
     if form == "linear":
-        fvec = np.array([0.7, -1.2, 0.4])[:dof_n]
-        F = LinearForm(lambda v: 1.5 * v) if dof_n == 1 else LinearForm(lambda v: v.dot(fvec))
+        fvec = np.array([0.7, -1.2, 0.4])[:dof_n] * sc
+        F = LinearForm(lambda v: (1.5 * sc) * v) if dof_n == 1 else LinearForm(lambda v: v.dot(fvec))
         data = np.asarray(F.Integrate_e(field))
         ref = np.zeros((Ndof, 1))
         con = g.connect
@@ -461,15 +473,15 @@ def _run_form(case):
         Bm = np.array([[0.2, 1.0, -0.3], [-0.5, 0.7, 0.4], [0.9, -0.2, 0.1]])[:d, :dof_n]
         Wm = np.array([[1.0, 2.0, -1.0], [3.0, 4.0, 0.5], [0.3, -0.7, 1.1]])[:d, :dof_n]
         if form == "mass":
-            B = BiLinearForm(lambda u, v: 2.0 * u.dot(v))
+            B = BiLinearForm(lambda u, v: (2.0 * sc) * u.dot(v))
         else:
             # non-symmetric forms
             if dof_n == 1:
-                B = BiLinearForm(lambda u, v: u.grad.dot(bvec) * v.dot(np.array([1.0])))
+                B = BiLinearForm(lambda u, v: sc * u.grad.dot(bvec) * v.dot(np.array([1.0])))
             else:
-                B = BiLinearForm(lambda u, v: u.grad.ddot(Bm) * v.grad.ddot(Bm * Wm))
+                B = BiLinearForm(lambda u, v: sc * u.grad.ddot(Bm) * v.grad.ddot(Bm * Wm))
         data = np.asarray(B.Integrate_e(field))
-        if form == "nonsym" and np.abs(data - np.swapaxes(data, 1, 2)).max() < 1e-12:
+        if form == "nonsym" and np.abs(data - np.swapaxes(data, 1, 2)).max() < 1e-6 * np.abs(data).max():
             return {"violations": [], "skipped": "form turned out symmetric", "fingerprint": "sym", "nontrivial": False}
         ref = np.zeros((Ndof, Ndof))
         con = g.connect
@@ -483,6 +495,111 @@ def _run_form(case):
     if got.shape != ref.shape or np.abs(got - ref).max() > 1e-13 * max(np.abs(ref).max(), 1e-300):
         v.append(viol("form_assemble", f"{form} form on {et}, dof_n={dof_n}: Assemble() != scatter-add of Integrate_e()", **key))
     return {"violations": v, "fingerprint": fp(et, dof_n, form, got), "nontrivial": True, "transitions": 2}
+
+
+def _run_large(case):
+    """Ndof^2 >= 2^31: sparse reference (scipy COO duplicate summation, independent of the library's reduction map)."""
+    import scipy.sparse as sp
+    from EasyFEA import Models, Simulations
+
+    n, dof_n = case["n"], case["dof_n"]
+    xs = np.linspace(0.0, 1.0, n + 1)
+    X, Y = np.meshgrid(xs, xs, indexing="ij")
+    coords = np.zeros(((n + 1) ** 2, 3))
+    coords[:, 0], coords[:, 1] = X.ravel(), Y.ravel()
+    idx = np.arange((n + 1) ** 2).reshape(n + 1, n + 1)
+    con = np.stack([idx[:-1, :-1].ravel(), idx[1:, :-1].ravel(), idx[1:, 1:].ravel(), idx[:-1, 1:].ravel()], axis=1)
+    zm = Z.ZooMesh(coords, {"QUAD4": con}, {}, f"grid{n}")
+    simu = Simulations.Elastic(zm.build(with_boundary=False), Models.Elastic.Isotropic(2, E=2.0, v=0.3, planeStress=True, thickness=0.7))
+    simu.rho = 1.3
+    pt = simu.problemType
+    Ndof = simu.mesh.Nn * dof_n
+    key = dict(n=n, dof_n=dof_n)
+    if Ndof ** 2 < 2 ** 31:
+        return {"violations": [], "skipped": "mesh too small for the 32-bit threshold", "fingerprint": "small", "nontrivial": False}
+    got = simu.Assembly(pt)
+    loc = simu.Construct_local_matrix_system(pt)
+    v = []
+    for si, name in enumerate("KCM"):
+        rows, cols, vals = [], [], []
+        for g, arrs in loc.items():
+            if arrs[si] is None:
+                continue
+            c = np.asarray(g.connect)
+            gd = (c[:, :, None] * dof_n + np.arange(dof_n)[None, None, :]).reshape(c.shape[0], -1)
+            rows.append(np.repeat(gd, gd.shape[1], axis=1).ravel())
+            cols.append(np.tile(gd, (1, gd.shape[1])).ravel())
+            vals.append(np.asarray(arrs[si]).ravel())
+        if not rows:
+            continue
+        ref = sp.coo_matrix((np.concatenate(vals), (np.concatenate(rows), np.concatenate(cols))), shape=(Ndof, Ndof)).tocsr()
+        d = abs(got[si] - ref)
+        err = d.max() if d.nnz else 0.0
+        sc = abs(ref).max()
+        if got[si].shape != ref.shape or err > 1e-12 * sc:
+            v.append(viol("assembly_mismatch_large", f"{Ndof} dofs (Ndof^2 = {Ndof ** 2:.3e} >= 2^31): {name} differs from the COO scatter-add by {err:.3e} (scale {sc:.2e})", slot=name, **key))
+    return {"violations": v, "fingerprint": fp("large", n, float(abs(got[0]).sum())), "nontrivial": True, "transitions": 2}
+
+
+def _run_isolated(case):
+    """no two element entries share a matrix slot: single element / disconnected elements, every numbering of a single element
+    (<= 24) and three scrambled numberings otherwise, through the harness simulation"""
+    from EasyFEA import Models
+
+    et, nel, dof_n = case["elemType"], case["nel"], case["dof_n"]
+    nPe = Z.proto(et).nPe
+    d = Z.dim_of(et)
+    base = Z.local_coords(et)
+    pts = np.zeros((nPe, 3))
+    pts[:, :d] = base
+    coords = np.vstack([pts + np.array([3.0 * e, 0.0, 0.0]) for e in range(nel)])  # disjoint copies
+    Nn = coords.shape[0]
+    if nel == 1 and nPe <= 4:
+        perms = [np.array(p) for p in itertools.permutations(range(Nn))]
+    else:
+        r = rng("c03iso", et, nel)
+        perms = [np.arange(Nn), np.arange(Nn)[::-1].copy(), r.permutation(Nn), r.permutation(Nn)]
+    Probe = _probe_class()
+    v, fps, ntr = [], [], 0
+    key = dict(elemType=et, nel=nel, dof_n=dof_n)
+    for ip, perm in enumerate(perms):
+        co = np.empty_like(coords)
+        co[perm] = coords
+        con = perm[np.arange(Nn).reshape(nel, nPe)]
+        zm = Z.ZooMesh(co, {et: con}, {}, f"iso[{et}x{nel}]")
+        simu = Probe(zm.build(with_boundary=False), Models.Thermal(k=1.0, c=1.0))
+        simu.probe_dof_n = dof_n
+        simu.probe_slot = 0
+        for rep in range(2):
+            simu.probe_epoch = rep
+            simu.Need_Update()
+            vv, f = compare(simu, dict(key, perm=("all" if nel == 1 and nPe <= 4 else ip)), f"isolated {et}x{nel}, numbering {perm.tolist()}, assembly {rep}")
+            ntr += 1
+            fps += f
+            v += vv
+        if v:
+            break
+    return {"violations": v[:4], "fingerprint": fp(et, nel, dof_n, len(set(fps))), "nontrivial": len(set(fps)) > 1, "transitions": ntr, "states": len(set(fps))}
+
+
+def _run_scribble(case):
+    """the matrices returned by Get_K_C_M_F belong to the caller: editing them in place must not reach the simulation"""
+    s, zm = _make_real(case["sim"], case["mesh"])
+    key = dict(sim=case["sim"], mesh=case["mesh"])
+    ref = [A.toarray().copy() for A in s.Get_K_C_M_F()]
+    v = []
+    for step in range(3):
+        mats = s.Get_K_C_M_F()
+        for A in mats:  # what a user applying boundary conditions by hand does
+            A.data[:] = 0.0
+            A.eliminate_zeros()
+        again = s.Get_K_C_M_F()
+        for name, A, R in zip("KCMF", again, ref):
+            if A.shape != R.shape or np.abs(A.toarray() - R).max() > 0:
+                v.append(viol("returned_matrices_shared", f"{case['sim']}: after the caller zeroed the matrices returned by Get_K_C_M_F, the next call returns a changed {name}", slot=name, **key))
+        if step == 1:
+            s.Need_Update()  # reassembly on the cached sparsity pattern
+    return {"violations": v[:4], "fingerprint": fp(case["sim"], ref[0]), "nontrivial": True, "transitions": 6}
 
 
 def run_case(case):
